@@ -124,10 +124,17 @@ def make_model_class():
     from pydsol.core.model import DSOLModel
     from pydsol.core.simevent import SimEvent
 
+    class DirectEvent(SimEvent):
+        """another SimEvent implementation: calls the target without converting failures to DSOLError"""
+
+        def execute(self):
+            self._method(**self._kwargs)
+
     class ProgModel(DSOLModel):
         def __init__(self, simulator, program):
             super().__init__(simulator)
             self.prog = program
+            self.direct = bool(program.get("direct_events"))   # schedule DirectEvent instances (C05)
             self.faults = set(program.get("faults", []))
             self.cap = program.get("cap", 300)
             self.trace = []
@@ -181,7 +188,10 @@ def make_model_class():
         def _sched(self, how, arg, node, prio):
             sim = self.simulator
             seq = self.seq
-            if how == "now":
+            if self.direct:
+                t = sim.simulator_time if how == "now" else (sim.simulator_time + arg if how == "rel" else arg)
+                ev = sim.schedule_event(DirectEvent(t, self, "h", prio, seq=seq, node=node))
+            elif how == "now":
                 ev = sim.schedule_event_now(self, "h", prio, seq=seq, node=node)
             elif how == "rel":
                 ev = sim.schedule_event_rel(arg, self, "h", prio, seq=seq, node=node)
